@@ -273,7 +273,7 @@ class Exec:
 
     def binop(self, op, a, b, st, node=None):
         a, b = lift(a), lift(b)
-        seqlike = lambda x: isinstance(x, PyTup) or (isinstance(x, V) and (x.ty is STR or isinstance(x.ty, (SeqT, ListT))))
+        seqlike = lambda x: isinstance(x, PyTup) or (isinstance(x, V) and (x.ty is STR or isinstance(x.ty, (SeqT, ListT, DictT))))
         if isinstance(op, ast.Add) and seqlike(a) and seqlike(b):
             return concat(a, b)
         if isinstance(op, ast.Mod) and isinstance(a, V) and a.ty is STR:
@@ -370,9 +370,13 @@ class Exec:
         names = sorted({n.id for n in ast.walk(comp) if isinstance(n, ast.Name)} & set(st.env))
         tnames = {n.id for n in ast.walk(g.target) if isinstance(n, ast.Name)}
         free = [(n, st.env[n]) for n in names if n not in tnames and isinstance(st.env[n], V) and st.env[n].ty is not NONE]
-        self.ctx.comp_n += 1
-        fname = "comp_%s_%d_L%d" % (self.ctx.contract.key.replace(".", "_").replace("/", "_").replace(":", "_"),
-                                    self.ctx.comp_n, comp.lineno)
+        import hashlib as _h
+        sig = "%s|%s|%s|%s|%s|%s" % (mode, ast.unparse(comp.elt), ast.unparse(g.target), [ast.unparse(c) for c in g.ifs],
+                                     it.ty.name, [(n, v.ty.name) for n, v in free])
+        fname = "comp_" + _h.md5(sig.encode()).hexdigest()[:10]
+        if fname in _comp_cache:
+            f, rty = _comp_cache[fname]
+            return V(rty, f(*([it.t] + [v.t for _, v in free])))
         params = [z3.Const(fname + "_it", it.ty.sort())] + [z3.Const(fname + "_" + n, v.ty.sort()) for n, v in free]
         sub = State({n: V(v.ty, p) for (n, v), p in zip(free, params[1:])})
         for n, v in st.env.items():
@@ -395,11 +399,13 @@ class Exec:
                 else:
                     body = z3.If(nonempty, z3.Or(z3.And(cond, e), rec), False)
                 add_definition(f, params, body)
+                _comp_cache[fname] = (f, BOOL)
                 return V(BOOL, f(*([it.t] + [v.t for _, v in free])))
             if mode == "sum":
                 f = rec_function(fname, *([p.sort() for p in params] + [z3.IntSort()]))
                 rec = f(*([tl.t] + params[1:]))
                 add_definition(f, params, z3.If(nonempty, z3.If(cond, coerce(elt, INT).t, 0) + rec, 0))
+                _comp_cache[fname] = (f, INT)
                 return V(INT, f(*([it.t] + [v.t for _, v in free])))
             if mode == "list":
                 rty = self.ctx.contract.comp_types.get(comp.lineno) if hasattr(self.ctx.contract, "comp_types") else None
@@ -414,6 +420,7 @@ class Exec:
                 else:
                     body = z3.If(nonempty, z3.If(cond, rty.cons(e, rec), rec), rty.nil)
                 add_definition(f, params, body)
+                _comp_cache[fname] = (f, rty)
                 return V(rty, f(*([it.t] + [v.t for _, v in free])))
         finally:
             self.ctx.spec_mode = old_spec
@@ -711,6 +718,7 @@ class Exec:
 
 # uninterpreted string helpers (A7) -- created lazily, one per process
 _uf = {}
+_comp_cache = {}
 
 
 def _get_uf(name, *sorts):
@@ -881,7 +889,63 @@ def _b_min_max(which):
     return call
 
 
+def _b_dhead(ex, args, kwargs, st, node):
+    d = lift(args[0])
+    if isinstance(d, V) and isinstance(d.ty, DictT):
+        return PyTup([V(d.ty.key, d.ty.k(d.t)), V(d.ty.val, d.ty.v(d.t))])
+    raise Unsupported("dhead of %r" % (d,))
+
+
+def _b_dtail(ex, args, kwargs, st, node):
+    d = lift(args[0])
+    if isinstance(d, V) and isinstance(d.ty, DictT):
+        return V(d.ty, d.ty.tl(d.t))
+    raise Unsupported("dtail of %r" % (d,))
+
+
+def _b_dcons(ex, args, kwargs, st, node):
+    d = lift(args[2])
+    if isinstance(d, V) and isinstance(d.ty, DictT):
+        return V(d.ty, d.ty.cons(coerce(args[0], d.ty.key).t, coerce(args[1], d.ty.val).t, d.t))
+    raise Unsupported("dcons onto %r" % (d,))
+
+
+def _b_dput(ex, args, kwargs, st, node):
+    d = lift(args[0])
+    if isinstance(d, V) and isinstance(d.ty, DictT):
+        return V(d.ty, d.ty.fn("set")(d.t, coerce(args[1], d.ty.key).t, coerce(args[2], d.ty.val).t))
+    raise Unsupported("dput into %r" % (d,))
+
+
+def _b_dapp(ex, args, kwargs, st, node):
+    return concat(args[0], args[1])
+
+
+def _b_dhas(ex, args, kwargs, st, node):
+    return V(BOOL, contains(args[1], args[0]))
+
+
+def _b_odict(ex, args, kwargs, st, node):
+    if args:
+        raise Unsupported("odict(...) with arguments")
+    return PyTup([], True)
+
+
+def _b_dfn(name):
+    def call(ex, args, kwargs, st, node):
+        d = lift(args[0])
+        if isinstance(d, V) and isinstance(d.ty, DictT):
+            rest = [coerce(a, d.ty) .t if isinstance(lift(a), V) and lift(a).ty is d.ty else lift(a).t for a in args[1:]]
+            return V(BOOL, d.ty.fn(name)(d.t, *rest))
+        raise Unsupported("%s of %r" % (name, d))
+    return call
+
+
 BUILTINS = {
+    "dhead": PyFn("dhead", _b_dhead), "dtail": PyFn("dtail", _b_dtail), "dcons": PyFn("dcons", _b_dcons),
+    "dput": PyFn("dput", _b_dput), "odict": PyFn("odict", _b_odict), "dapp": PyFn("dapp", _b_dapp),
+    "dhas": PyFn("dhas", _b_dhas),
+    "dwf": PyFn("dwf", _b_dfn("wf")), "ddisj": PyFn("ddisj", _b_dfn("disj")),
     "len": PyFn("len", _b_len),
     "all": _b_all_any("all"),
     "any": _b_all_any("any"),
